@@ -230,27 +230,37 @@ func VH_c04_write() {
 		verifrt.Assert("rejected-write-publishes-no-data-change", w.dataChangeEvents(ev0) == 0)
 	} else {
 		verifrt.Reach("accepted")
-		applied := true
+		applied, appliedAll := true, true
 		for i := 0; i < n; i++ {
-			if !addressed[i] || flag[i] != 1 {
+			if !addressed[i] {
 				continue
 			}
 			if (shape == "partial-selector" && nAddr > 1) || both[i] {
 				continue // a selector matching several elements: which one is written is left open
 			}
 			it := find(uint(i + 1))
+			done := true
 			switch {
 			case deleted[i]:
-				applied = applied && it == nil
+				done = it == nil
 			case it == nil:
-				applied = false
+				done = false
 			case written[i]:
-				applied = applied && it.IsLimitActive != nil && verifrt.Concrete(*it.IsLimitActive == actU)
+				done = it.IsLimitActive != nil && verifrt.Concrete(*it.IsLimitActive == actU)
 			case shape == "delete-elements":
-				applied = applied && it.IsLimitActive == nil
+				done = it.IsLimitActive == nil
+			}
+			// success promises every change, also one aimed at a protected element (kept untouched by
+			// the first assertion: such a write cannot be answered with success)
+			appliedAll = appliedAll && done
+			if flag[i] == 1 {
+				applied = applied && done
 			}
 		}
 		verifrt.Assert("accepted-write-applied-to-every-addressed-changeable-element", applied)
+		if ack {
+			verifrt.Assert("write-answered-with-success-applied-all-of-its-changes", appliedAll)
+		}
 		if withID {
 			verifrt.Assert("accepted-write-did-not-drop-a-written-item", find(idC) != nil)
 		}
